@@ -74,6 +74,8 @@ def run_solve(st, opts):
         g = rand_tt(tt, N, 1, gen, dt)
     elif cfg["guess"] == "big":
         g = raw_tt(tt, N, 4, gen, dt)
+    elif cfg["guess"] == "zero":
+        g = tt.zeros(N, dtype=dt)
     objs, names = [A, b] + ([g] if g is not None else []), ["A", "b"] + (["x0"] if g is not None else [])
     prec = None if cfg["prec"] == "none" else cfg["prec"]
     use_cpp = cfg["backend"] == "cpp"
@@ -137,6 +139,8 @@ def run_divide(st, opts):
         g = rand_tt(tt, N, 2, gen, dt)
     elif cfg["guess"] == "alias":
         g = x
+    elif cfg["guess"] == "zero":
+        g = tt.zeros(N, dtype=dt) if cfg["seed"] % 2 == 0 else 0 * rand_tt(tt, N, 2, gen, dt)
     objs = [x, y] + ([g] if g is not None and g is not x else [])
     names = ["x", "y"] + (["starting_tensor"] if g is not None and g is not x else [])
     c = 2.5
